@@ -463,6 +463,15 @@ func checkC16(c C16Case) (vs []*Violation) {
 		mustFail := false
 		if r.Damage != "" {
 			wire, mustFail = damageBody(r, plain, wire)
+			if mustFail && r.Encoding != "" && strings.HasPrefix(r.Damage, "trunc_") {
+				// a cut that falls exactly between two gzip members leaves a sound stream of fewer
+				// members (with white space behind the document the entity may even be complete):
+				// "broken" is what the reference decoder calls broken
+				if _, err := decodeBody(r.Encoding, wire); err == nil && len(wire) > 0 {
+					mustFail = false
+					labels = append(labels, "cut_at_a_member_boundary")
+				}
+			}
 		}
 		q := model.ReqSpec{Method: "POST", Path: "/e", Body: string(wire)}
 		if i%3 == 1 {
